@@ -41,16 +41,16 @@ CONSTANTS
   ValSet, DataSet, WinSet, PinSet, CastSet,     \* alphabets
   Typed, BypassFloat, BypassRef, Invalidate,    \* caches (cf. CacheModel)
   MarkDerived, FlagAfterValidation, SameCastShortcut,
-  DerivedByIdentity, GuessEachTime, CountLive, LabelLive, PayloadLive
+  DerivedByIdentity, GuessEachTime, CountLive, LabelLive, PayloadLive, FileIdFollowsHeader
 
-VARIABLES pval, fval, zname, zorig, ucast, ubounds, tlen, vrl, pay,
-          vcache, obcache, refcache, cast, bounds, pcode, tcnt, wvrl, wpay,
+VARIABLES pval, fval, zname, zorig, ucast, ubounds, tlen, vrl, pay, hid,
+          vcache, obcache, refcache, cast, bounds, pcode, tcnt, wvrl, wpay, ofid,
           out, want, hist
 
-spec  == << pval, fval, zname, zorig, ucast, ubounds, tlen, vrl, pay >>
-impl  == << vcache, obcache, refcache, cast, bounds, pcode, tcnt, wvrl, wpay >>
-vars  == << pval, fval, zname, zorig, ucast, ubounds, tlen, vrl, pay, vcache, obcache, refcache, cast, bounds, pcode, tcnt, wvrl, wpay, out, want, hist >>
-noHist == << pval, fval, zname, zorig, ucast, ubounds, tlen, vrl, pay, vcache, obcache, refcache, cast, bounds, pcode, tcnt, wvrl, wpay, out, want, Len(hist) >>
+spec  == << pval, fval, zname, zorig, ucast, ubounds, tlen, vrl, pay, hid >>
+impl  == << vcache, obcache, refcache, cast, bounds, pcode, tcnt, wvrl, wpay, ofid >>
+vars  == << pval, fval, zname, zorig, ucast, ubounds, tlen, vrl, pay, vcache, obcache, refcache, cast, bounds, pcode, tcnt, wvrl, wpay, ofid, hid, out, want, hist >>
+noHist == << pval, fval, zname, zorig, ucast, ubounds, tlen, vrl, pay, vcache, obcache, refcache, cast, bounds, pcode, tcnt, wvrl, wpay, ofid, hid, out, want, Len(hist) >>
 
 (* ---- Python values: [t, v]; 1 == 1.0 == True, 0 == 0.0 == -0.0 ("nz") ---- *)
 AllVals == { [t |-> "int", v |-> "1"], [t |-> "float", v |-> "1"], [t |-> "bool", v |-> "1"], [t |-> "str", v |-> "1"],
@@ -81,7 +81,7 @@ ValEqual(a, b) == a = b /\ a[1] # "N"
 Init ==
   /\ pval = ValOf(<< "int", "1" >>) /\ fval = ValOf(<< "str", "1" >>) /\ zname = "ZA" /\ zorig = 0 /\ ucast = "" /\ ubounds = None /\ tlen = 1
   /\ vcache = {} /\ obcache = << >> /\ refcache = << >> /\ cast = NoCast /\ bounds = NoBounds /\ pcode = "" /\ tcnt = 1
-  /\ vrl = 256 /\ pay = "P0" /\ wvrl = 256 /\ wpay = "P0"
+  /\ vrl = 256 /\ pay = "P0" /\ wvrl = 256 /\ wpay = "P0" /\ hid = "H1" /\ ofid = "H1"
   /\ out = << >> /\ want = << >> /\ hist = << >>
 
 Log(op) == hist' = Append(hist, op)
@@ -89,56 +89,60 @@ Can == Len(hist) < MaxOps
 
 SetVal(k) ==
   /\ Can /\ pval' = ValOf(k) /\ Log([k |-> "set_val", t |-> k[1], v |-> k[2]])
-  /\ UNCHANGED << fval, zname, zorig, ucast, ubounds, tlen, vcache, obcache, refcache, cast, bounds, pcode, tcnt, out, want, vrl, pay, wvrl, wpay >>
+  /\ UNCHANGED << fval, zname, zorig, ucast, ubounds, tlen, vcache, obcache, refcache, cast, bounds, pcode, tcnt, out, want, vrl, pay, wvrl, wpay, hid, ofid >>
 
 SetFt(k) ==      \* origin.file_type: an IDENT attribute that takes any Python value (written as str(value))
   /\ Can /\ fval' = ValOf(k) /\ Log([k |-> "set_ft", t |-> k[1], v |-> k[2]])
-  /\ UNCHANGED << pval, zname, zorig, ucast, ubounds, tlen, vcache, obcache, refcache, cast, bounds, pcode, tcnt, out, want, vrl, pay, wvrl, wpay >>
+  /\ UNCHANGED << pval, zname, zorig, ucast, ubounds, tlen, vcache, obcache, refcache, cast, bounds, pcode, tcnt, out, want, vrl, pay, wvrl, wpay, hid, ofid >>
 
 Rename(n) ==
   /\ Can /\ zname' = n /\ obcache' = (IF Invalidate THEN << >> ELSE obcache) /\ Log([k |-> "rename", name |-> n])
-  /\ UNCHANGED << pval, fval, zorig, ucast, ubounds, tlen, vcache, refcache, cast, bounds, pcode, tcnt, out, want, vrl, pay, wvrl, wpay >>
+  /\ UNCHANGED << pval, fval, zorig, ucast, ubounds, tlen, vcache, refcache, cast, bounds, pcode, tcnt, out, want, vrl, pay, wvrl, wpay, hid, ofid >>
 
 SetOrigin(o) ==
   /\ Can /\ zorig' = o /\ obcache' = (IF Invalidate THEN << >> ELSE obcache) /\ Log([k |-> "set_origin", ref |-> o])
-  /\ UNCHANGED << pval, fval, zname, ucast, ubounds, tlen, vcache, refcache, cast, bounds, pcode, tcnt, out, want, vrl, pay, wvrl, wpay >>
+  /\ UNCHANGED << pval, fval, zname, ucast, ubounds, tlen, vcache, refcache, cast, bounds, pcode, tcnt, out, want, vrl, pay, wvrl, wpay, hid, ofid >>
 
 PinCast(dt) ==
   /\ Can /\ ucast' = dt
   /\ cast' = IF SameCastShortcut /\ cast.dt = dt THEN cast ELSE [dt |-> dt, derived |-> FALSE]
   /\ Log([k |-> "pin_cast", dt |-> dt])
-  /\ UNCHANGED << pval, fval, zname, zorig, ubounds, tlen, vcache, obcache, refcache, bounds, pcode, tcnt, out, want, vrl, pay, wvrl, wpay >>
+  /\ UNCHANGED << pval, fval, zname, zorig, ubounds, tlen, vcache, obcache, refcache, bounds, pcode, tcnt, out, want, vrl, pay, wvrl, wpay, hid, ofid >>
 
 ClearCast ==
   /\ Can /\ ucast' = "" /\ cast' = NoCast /\ Log([k |-> "clear_cast"])
-  /\ UNCHANGED << pval, fval, zname, zorig, ubounds, tlen, vcache, obcache, refcache, bounds, pcode, tcnt, out, want, vrl, pay, wvrl, wpay >>
+  /\ UNCHANGED << pval, fval, zname, zorig, ubounds, tlen, vcache, obcache, refcache, bounds, pcode, tcnt, out, want, vrl, pay, wvrl, wpay, hid, ofid >>
 
 (* an assignment the setter refuses (an unsupported dtype): nothing may change *)
 RejectCast ==
   /\ Can /\ cast' = IF FlagAfterValidation THEN cast ELSE [cast EXCEPT !.derived = FALSE]
   /\ Log([k |-> "reject_cast"])
-  /\ UNCHANGED << pval, fval, zname, zorig, ucast, ubounds, tlen, vcache, obcache, refcache, bounds, pcode, tcnt, out, want, vrl, pay, wvrl, wpay >>
+  /\ UNCHANGED << pval, fval, zname, zorig, ucast, ubounds, tlen, vcache, obcache, refcache, bounds, pcode, tcnt, out, want, vrl, pay, wvrl, wpay, hid, ofid >>
 
 PinBounds(b) ==
   /\ Can /\ ubounds' = b /\ bounds' = [v |-> b, rec |-> bounds.rec, same |-> FALSE]
   /\ Log([k |-> "pin_bounds", ix |-> b[1], w |-> b[2]])
-  /\ UNCHANGED << pval, fval, zname, zorig, ucast, tlen, vcache, obcache, refcache, cast, pcode, tcnt, out, want, vrl, pay, wvrl, wpay >>
+  /\ UNCHANGED << pval, fval, zname, zorig, ucast, tlen, vcache, obcache, refcache, cast, pcode, tcnt, out, want, vrl, pay, wvrl, wpay, hid, ofid >>
 
 Extend ==       \* comment.text.value.append(...): the list the attribute handed out grows in place
   /\ Can /\ tlen < 3 /\ tlen' = tlen + 1 /\ tcnt' = (IF CountLive THEN tlen + 1 ELSE tcnt) /\ Log([k |-> "extend"])
-  /\ UNCHANGED << pval, fval, zname, zorig, ucast, ubounds, vcache, obcache, refcache, cast, bounds, pcode, out, want, vrl, pay, wvrl, wpay >>
+  /\ UNCHANGED << pval, fval, zname, zorig, ucast, ubounds, vcache, obcache, refcache, cast, bounds, pcode, out, want, vrl, pay, wvrl, wpay, hid, ofid >>
 
 SetText(n) ==
   /\ Can /\ tlen' = n /\ tcnt' = n /\ Log([k |-> "set_text", n |-> n])
-  /\ UNCHANGED << pval, fval, zname, zorig, ucast, ubounds, vcache, obcache, refcache, cast, bounds, pcode, out, want, vrl, pay, wvrl, wpay >>
+  /\ UNCHANGED << pval, fval, zname, zorig, ucast, ubounds, vcache, obcache, refcache, cast, bounds, pcode, out, want, vrl, pay, wvrl, wpay, hid, ofid >>
 
 Relabel(v) ==     \* df.storage_unit_label.max_record_length = v: the next file is framed for v
   /\ Can /\ vrl' = v /\ wvrl' = (IF LabelLive THEN v ELSE wvrl) /\ Log([k |-> "relabel", vrl |-> v])
-  /\ UNCHANGED << pval, fval, zname, zorig, ucast, ubounds, tlen, pay, vcache, obcache, refcache, cast, bounds, pcode, tcnt, wpay, out, want >>
+  /\ UNCHANGED << pval, fval, zname, zorig, ucast, ubounds, tlen, pay, vcache, obcache, refcache, cast, bounds, pcode, tcnt, wpay, out, want, hid, ofid >>
 
 Replace(q) ==     \* record.data = q for the no-format record
   /\ Can /\ pay' = q /\ wpay' = (IF PayloadLive THEN q ELSE wpay) /\ Log([k |-> "replace", pay |-> q])
-  /\ UNCHANGED << pval, fval, zname, zorig, ucast, ubounds, tlen, vrl, vcache, obcache, refcache, cast, bounds, pcode, tcnt, wvrl, out, want >>
+  /\ UNCHANGED << pval, fval, zname, zorig, ucast, ubounds, tlen, vrl, vcache, obcache, refcache, cast, bounds, pcode, tcnt, wvrl, out, want, hid, ofid >>
+
+SetHeaderId(h) ==   \* lf.file_header.header_id = h; the defining origin's FILE-ID was taken from the header when the origin was added
+  /\ Can /\ hid' = h /\ Log([k |-> "set_header", id |-> h])
+  /\ UNCHANGED << pval, fval, zname, zorig, ucast, ubounds, tlen, vrl, pay, vcache, obcache, refcache, cast, bounds, pcode, tcnt, wvrl, wpay, ofid, out, want >>
 
 Write(d, w) ==
   /\ Can
@@ -158,9 +162,10 @@ Write(d, w) ==
          c1   == CacheAfter(code, pval)
          ftb  == LET hit == { e \in c1 : e.key = Key("IDENT", fval) } IN
                  IF Bypass("IDENT", fval) \/ hit = {} THEN Enc("IDENT", fval) ELSE (CHOOSE e \in hit : TRUE).bytes
-     IN /\ out'  = << WriteStruct(code, pval), ftb, ob, ref, eff, b2.v, cnt, wvrl, wpay >>
+         fidw == IF FileIdFollowsHeader THEN hid ELSE ofid          \* FILE-ID written (a mismatch with the header ID is refused)
+     IN /\ out'  = IF fidw # hid THEN << "raises" >> ELSE << WriteStruct(code, pval), ftb, ob, ref, eff, b2.v, cnt, wvrl, wpay, fidw >>
         /\ want' = << Enc(Guess(pval), pval), Enc("IDENT", fval), << zname, zorig >>, << zname, zorig >>, IF ucast # "" THEN ucast ELSE d.dt,
-                      IF ubounds # None THEN ubounds ELSE Derive(d, w), tlen, vrl, pay >>
+                      IF ubounds # None THEN ubounds ELSE Derive(d, w), tlen, vrl, pay, hid >>
         /\ vcache' = IF Bypass("IDENT", fval) \/ \E e \in c1 : e.key = Key("IDENT", fval) THEN c1
                       ELSE c1 \cup {[key |-> Key("IDENT", fval), bytes |-> Enc("IDENT", fval)]}
         /\ obcache' = ob
@@ -168,12 +173,13 @@ Write(d, w) ==
         /\ cast' = IF cast.dt # "" /\ ~(MarkDerived /\ cast.derived) THEN cast ELSE [dt |-> d.dt, derived |-> TRUE]
         /\ bounds' = b2
         /\ pcode' = code
+        /\ ofid' = fidw
         /\ Log([k |-> "write", dt |-> d.dt, ix |-> d.ix, w |-> w, proj |-> [dt |-> eff, bix |-> b2.v[1], bw |-> b2.v[2], cnt |-> cnt]])
-  /\ UNCHANGED << pval, fval, zname, zorig, ucast, ubounds, tlen, tcnt, vrl, pay, wvrl, wpay >>
+  /\ UNCHANGED << pval, fval, zname, zorig, ucast, ubounds, tlen, tcnt, vrl, pay, wvrl, wpay, hid >>
 
 Next == (\E k \in ValSet : SetVal(k)) \/ (\E k \in ValSet : SetFt(k)) \/ (\E n \in Names : Rename(n)) \/ (\E o \in Origins : SetOrigin(o))
         \/ (\E dt \in CastSet : PinCast(dt)) \/ ClearCast \/ RejectCast \/ (\E b \in PinSet : PinBounds(b))
-        \/ Extend \/ (\E n \in {1, 2} : SetText(n)) \/ (\E v \in {64, 256} : Relabel(v)) \/ (\E q \in {"P0", "P1"} : Replace(q)) \/ (\E d \in DataSet, w \in WinSet : Write(d, w))
+        \/ Extend \/ (\E n \in {1, 2} : SetText(n)) \/ (\E v \in {64, 256} : Relabel(v)) \/ (\E q \in {"P0", "P1"} : Replace(q)) \/ (\E h \in {"H1", "H2"} : SetHeaderId(h)) \/ (\E d \in DataSet, w \in WinSet : Write(d, w))
 Spec == Init /\ [][Next]_vars
 
 (* C14: what is written equals what a fresh process writes for the current specification and data *)
